@@ -166,6 +166,10 @@ PROPS = {
                       'guard_live_heap_respects_pooled': {'kind': 'complete', 'fn': 'Guard::guard (live heap, symbolic pooled flag)'},
                       'space_pool_object_once': {'kind': 'complete', 'fn': 'Space::pool_object'},
                       'space_alloc_reuses_pooled_slot_reset': {'kind': 'complete', 'fn': 'Space::alloc_internal (reuse path)'},
+                      'space_create_guard_fresh': {'kind': 'complete', 'fn': 'Space::create_guard (empty guard pool)'},
+                      'guard_pool_k0_n2': {'kind': 'bounded', 'bound': 'guard pool of exactly 0 storages, returned storage of exactly 2 (dangling) roots', 'fn': 'Space::return_guard_to_pool / Space::create_guard'},
+                      'guard_pool_k15_n1': {'kind': 'bounded', 'bound': 'guard pool of exactly 15 storages, returned storage of exactly 1 (dangling) root', 'fn': 'Space::return_guard_to_pool / Space::create_guard'},
+                      'guard_pool_k16_n1': {'kind': 'bounded', 'bound': 'guard pool of exactly 16 storages (full), returned storage of exactly 1 (dangling) root', 'fn': 'Space::return_guard_to_pool / Space::create_guard'},
                       'guard_unguard_roots0': {'kind': 'bounded', 'bound': 'root list of exactly 0 entries', 'fn': 'Guard::unguard / len / clear'},
                       'guard_unguard_roots2': {'kind': 'bounded', 'bound': 'root list of exactly 2 entries drawn from 3 objects', 'fn': 'Guard::unguard / len / clear'},
                       'guard_unguard_roots1': {'kind': 'bounded', 'bound': 'root list of exactly 1 entry', 'fn': 'Guard::unguard / len / clear', 'tier': 'thorough'},
